@@ -221,6 +221,11 @@ pub fn menu(prop: &str, tier: &str, depth: usize, e: &Exec) -> Vec<Op> {
                 }
             }
             out.push(app("a", Ctx::Zero, "head:1"));
+            // a frame that expires and is collected: the lookups agree before, between and after
+            if !e.live.values().any(|m| matches!(m.frame.ttl, Some(TTL::Time(_)))) {
+                out.push(app("a", Ctx::Zero, &time_ttl()));
+            }
+            expire_collect_ops(e, &mut out);
             out.push(app("a\0b", Ctx::Zero, ""));
             out.push(Op::ImportNul);
             if e.ctxs.is_empty() {
@@ -296,6 +301,13 @@ pub fn menu(prop: &str, tier: &str, depth: usize, e: &Exec) -> Vec<Op> {
             }
             if e.ctxs.len() < 2 && n > 0 {
                 out.push(Op::ImportRegOlder);
+            }
+            // a registration the store refuses: under a fresh id, under the id of a stored frame
+            if n <= 2 {
+                out.push(Op::ImportRegRefused { over: None });
+                if let Some((r, _)) = e.live.values().enumerate().find(|(_, m)| m.frame.topic != "xs.context") {
+                    out.push(Op::ImportRegRefused { over: Some(r) });
+                }
             }
             // a registration imported under the id of an ordinary frame, an ordinary frame
             // imported under the id of a registration
@@ -490,7 +502,90 @@ fn short(history: &[Op]) -> String {
 }
 
 /// Run the search for one property; findings owned by `prop` become violations of `report`.
+/// Topics far longer than any history of the search: a backlog of L frames, then one `head:K`
+/// frame, then ONE drain (`wait_for_gc`). Afterwards the topic holds exactly its K newest frames.
+fn long_topics(prop: &str, report: &mut Report) {
+    use scru128::Scru128Id;
+    use xs::store::{Frame, Store, ZERO_CONTEXT};
+    let rt = tokio::runtime::Builder::new_current_thread().enable_all().build().unwrap();
+    let mut cases = 0;
+    for (k, l) in [(1u32, 66usize), (2, 130), (3, 260)] {
+        for ctx_registered in [false, true] {
+            cases += 1;
+            let dir = common::scratch_dir("long");
+            let store = Store::new(dir.clone());
+            let ctx = if ctx_registered { store.append(Frame::builder("xs.context", ZERO_CONTEXT).build()).unwrap().id } else { ZERO_CONTEXT };
+            let mut ids = vec![];
+            for i in 0..l {
+                ids.push(store.append(Frame::builder("a", ctx).maybe_ttl(if i % 7 == 3 { Some(TTL::Head(100_000)) } else { None }).build()).unwrap().id);
+                let _ = store.append(Frame::builder("ab", ctx).build());
+            }
+            ids.push(store.append(Frame::builder("a", ctx).ttl(TTL::Head(k)).build()).unwrap().id);
+            rt.block_on(store.wait_for_gc());
+            let left: Vec<Scru128Id> = store.read_sync(None, None, Some(ctx)).filter(|f| f.topic == "a").map(|f| f.id).collect();
+            let want: Vec<Scru128Id> = ids[ids.len() - k as usize..].to_vec();
+            let other = store.read_sync(None, None, Some(ctx)).filter(|f| f.topic == "ab").count();
+            let label = format!("backlog of {} frames of a topic, then one head:{} frame, one drain ({} context)", l, k, if ctx_registered { "registered" } else { "zero" });
+            if prop == "C09" && left.len() > k as usize {
+                report.add_violation(Violation { property: prop.into(), signature: "E1:long.head_ttl.count".into(), message: format!("{}: the topic still holds {} frames", label, left.len()), replay: json!({"engine": "seq-long", "prop": prop}) });
+            }
+            if prop == "C09" && left.len() == k as usize && left != want {
+                report.add_violation(Violation { property: prop.into(), signature: "E1:long.head_ttl.suffix".into(), message: format!("{}: the survivors are not the newest ones", label), replay: json!({"engine": "seq-long", "prop": prop}) });
+            }
+            if prop == "C08" && (want.iter().any(|w| !left.contains(w)) || other != l) {
+                report.add_violation(Violation { property: prop.into(), signature: "E1:long.get.missing".into(), message: format!("{}: of the {} newest frames {:?} survive; the prefix-related topic holds {} of {} frames", label, k, left.len(), other, l), replay: json!({"engine": "seq-long", "prop": prop}) });
+            }
+            common::close_store_async(store);
+            let _ = std::fs::remove_dir_all(&dir);
+        }
+    }
+    if prop == "C08" {
+        // supplementary (a sample of schedules, not the deciding step): clients remove old frames
+        // of a long topic while a head:3 frame arrives and the collector sweeps - the three
+        // newest frames survive whatever the interleaving
+        let mut rounds = 0;
+        for round in 0..3 {
+            rounds += 1;
+            let dir = common::scratch_dir("long");
+            let store = Store::new(dir.clone());
+            let mut ids = vec![];
+            for _ in 0..800 {
+                ids.push(store.append(Frame::builder("a", ZERO_CONTEXT).build()).unwrap().id);
+            }
+            let removers: Vec<_> = (0..4usize)
+                .map(|t| {
+                    let store = store.clone();
+                    let mine: Vec<Scru128Id> = ids.iter().take(120).skip(t).step_by(4).cloned().collect();
+                    std::thread::spawn(move || {
+                        for id in mine {
+                            let _ = store.remove(&id);
+                        }
+                    })
+                })
+                .collect();
+            std::thread::sleep(std::time::Duration::from_millis(1 + round));
+            ids.push(store.append(Frame::builder("a", ZERO_CONTEXT).ttl(TTL::Head(3)).build()).unwrap().id);
+            for r in removers {
+                let _ = r.join();
+            }
+            rt.block_on(store.wait_for_gc());
+            let newest: Vec<Scru128Id> = ids[ids.len() - 3..].to_vec();
+            let gone: Vec<String> = newest.iter().filter(|i| store.get(i).is_none()).map(|i| i.to_string()).collect();
+            if !gone.is_empty() {
+                report.add_violation(Violation { property: prop.into(), signature: "E1:stress.head_vs_remove".into(), message: format!("free-running: 4 clients removed old frames of an 800-frame topic while a head:3 frame arrived; of the 3 newest frames {:?} are gone", gone), replay: json!({"engine": "seq-long", "prop": prop}) });
+            }
+            common::close_store_async(store);
+            let _ = std::fs::remove_dir_all(&dir);
+        }
+        report.cov("supplementary_head_vs_remove_stress", json!({"rounds": rounds, "note": "hook-free sample of schedules: explicit removes racing the collector's head sweep; not the deciding step"}));
+    }
+    report.cov("long_topics", json!({"cases": cases, "rule": "backlog L in {66,130,260} (mixed forever / head:100000) + one head:K frame (K in {1,2,3}) + ONE drain, zero and registered context, with a prefix-related topic alongside"}));
+}
+
 pub fn run(prop: &str, tier: &str, report: &mut Report) {
+    if prop == "C08" || prop == "C09" {
+        long_topics(prop, report);
+    }
     let p = params(prop, tier);
     let t0 = Instant::now();
     let extra = vec![prop.to_string(), tier.to_string()];
@@ -507,7 +602,8 @@ pub fn run(prop: &str, tier: &str, report: &mut Report) {
     let mut per_level = vec![];
     let mut harness_errors = vec![];
     let mut depth = 0usize;
-    while !frontier.is_empty() {
+    let mut hung = false;
+    while !frontier.is_empty() && !hung {
         if t0.elapsed().as_secs() > p.time_cap_s {
             capped = true;
             break;
@@ -537,6 +633,13 @@ pub fn run(prop: &str, tier: &str, report: &mut Report) {
                 // A panic inside the store while replaying an accepted history is a finding in
                 // itself (C12: nothing accepted can poison later reads); harness panics say so.
                 let msg = r.get("panicked").and_then(|m| m.as_str()).unwrap_or("worker died").to_string();
+                if r.get("skipped_after_hang").is_some() {
+                    hung = true;
+                    continue;
+                }
+                if r.get("timeout").is_some() {
+                    hung = true;
+                }
                 if msg.starts_with("harness:") || msg.contains("menu") {
                     harness_errors.push(format!("{} :: {}", short(h), msg));
                 } else {
